@@ -137,6 +137,23 @@ fn check_content(out: &[u8; MAXC], n: usize, b: &Built) {
     }
 }
 
+/// C08 (only in builds with the hash feature, which the runner always pairs with the logging twox-hash shim):
+/// the hasher saw exactly the `n` delivered bytes, in order, since the last reset, and the accessor reports the low
+/// 32 bits of its finish value.
+#[cfg(feature = "hash")]
+fn check_hash(dec: &FrameDecoder, out: &[u8; MAXC], n: usize) {
+    let hs = &dec.state.as_ref().unwrap().decoder_scratch.buffer.hash;
+    assert!(n <= 8); // (len, acc) is exact up to 8 bytes
+    let (wl, wa) = twox_hash::reference_state(&out[..n]);
+    assert!(hs.seed == 0, "hash seed");
+    assert!(hs.len == wl, "number of hashed bytes differs from the number of delivered bytes");
+    assert!(hs.acc == wa, "hashed bytes differ from the delivered bytes (content or order)");
+    let want = twox_hash::reference_finish(0, wl, wa) as u32;
+    assert!(dec.get_calculated_checksum() == Some(want), "calculated checksum is not the low 32 bits of the hash of the delivered bytes");
+}
+#[cfg(not(feature = "hash"))]
+fn check_hash(_dec: &FrameDecoder, _out: &[u8; MAXC], _n: usize) {}
+
 fn check_finished(dec: &FrameDecoder, sk: &Skel, b: &Built, src: &ArrSrc) {
     assert!(dec.is_finished(), "frame not finished after its last block");
     assert!(dec.blocks_decoded() == sk.nblocks);
@@ -339,6 +356,7 @@ pub(crate) fn run_program(sk: &Skel, chunk: usize, prog: &[Op]) {
     n += ok_or_fail!(Read::read(&mut dec, &mut out[n..]), "read failed");
     assert!(dec.can_collect() == 0);
     nd_cover!(true, "program completed");
+    check_hash(&dec, &out, n);
     check_content(&out, n, &b);
     core::mem::forget(dec);
 }
@@ -405,6 +423,7 @@ pub(crate) fn reuse(a: &Skel, hist: u8, cut: usize, bsk: &Skel) {
     let mut out = [0u8; MAXC];
     let n = ok_or_fail!(Read::read(&mut dec, &mut out[..]), "read failed");
     nd_cover!(true, "second frame decoded");
+    check_hash(&dec, &out, n);
     check_content(&out, n, &fb);
     core::mem::forget(dec);
 }
@@ -466,7 +485,9 @@ fn limit_case(path: u8, wd: u8, limit: Option<u64>) {
     let eff = match limit { None => 128 * 1024 * 1024, Some(l) => if l < RFC_MAX_WINDOW { l } else { RFC_MAX_WINDOW } };
     let win = rfc_window(wd);
     let mut dec = FrameDecoder::new();
-    let fa = build(&SK_RAW1);
+    // the earlier frame on the reuse path has a 1 KiB window, so "new window <= old window" cases exist (a later frame
+    // that fits the existing buffer must still be checked against the *current* limit)
+    let fa = build(&SK_WD_RLE3_RAW2);
     if path == 1 {
         let mut s = src_of(&fa, fa.flen, usize::MAX);
         ok_or_fail!(dec.reset(&mut s), "A refused");
@@ -501,10 +522,10 @@ fn limit_case(path: u8, wd: u8, limit: Option<u64>) {
         assert!(nd::ghost(5) == 0, "window memory requested for a refused frame");
         if path == 1 {
             // the earlier frame's state is untouched
-            assert!(dec.is_finished() && dec.content_size() == 1 && dec.bytes_read_from_source() == fa.flen as u64 && dec.can_collect() == 1, "refused frame disturbed the decoder state");
+            assert!(dec.is_finished() && dec.blocks_decoded() == 2 && dec.bytes_read_from_source() == fa.flen as u64 && dec.can_collect() == fa.clen, "refused frame disturbed the decoder state");
         }
     } else if path == 1 {
-        assert!(!dec.is_finished() && dec.content_size() == 0 && dec.bytes_read_from_source() == 6 && dec.can_collect() == 0);
+        assert!(!dec.is_finished() && dec.blocks_decoded() == 0 && dec.bytes_read_from_source() == 6 && dec.can_collect() == 0);
         assert!(nd::ghost(5) >= 1 || win <= 16, "accepted frame did not reserve its window");
     }
     nd_cover!(true, "case completed");
@@ -523,6 +544,7 @@ limit_harness!(c11_limit_case_reuse_128m_default, 1, 0x88, None);
 limit_harness!(c11_limit_case_reuse_144m_default, 1, 0x89, None);
 limit_harness!(c11_limit_case_reuse_144m_raised, 1, 0x89, Some(u64::MAX));
 limit_harness!(c11_limit_case_reuse_1k_lowered, 1, 0x00, Some(1023));
+limit_harness!(c11_limit_case_reuse_1k_lowered_to_512, 1, 0x00, Some(512));
 limit_harness!(c11_limit_case_reuse_ff_max, 1, 0xFF, Some(u64::MAX));
 limit_harness!(c11_limit_case_stream_144m_default, 2, 0x89, None);
 limit_harness!(c11_limit_case_stream_144m_raised, 2, 0x89, Some(1 << 28));
@@ -640,5 +662,39 @@ harness! { fn fd_from_to_checksum_step() {
     }
     nd_cover!(k == 4, "exactly the checksum");
     nd_cover!(k == 3, "one byte short");
+    core::mem::forget(dec);
+} }
+
+// ------------------------------------------------------------------------------------------------ C08 (hash feature + shim)
+// drained data wraps in the ring (window 2 < content 8): both ring segments are non-empty at drain time
+#[cfg(feature = "hash")]
+prog_harness!(fd_hash_prog_blocks1_read_each, SK_LYING_RAW3_RLE3_RAW2_CK, usize::MAX, [Blocks(1), ReadN(8), Blocks(1), ReadN(8), Blocks(1), ReadN(8)]);
+#[cfg(feature = "hash")]
+prog_harness!(fd_hash_prog_collect_midframe_then_drain, SK_LYING_RAW3_RLE3_RAW2_CK, usize::MAX, [Blocks(2), Collect, Op::All, Collect]);
+#[cfg(feature = "hash")]
+prog_harness!(fd_hash_prog_sink_partial_resume, SK_LYING_RAW3_RLE3_RAW2_CK, usize::MAX, [Blocks(2), ReadN(3), Op::All, Op::Sink(1, false, 6), Op::Sink(1, true, 2), ReadN(1)]);
+#[cfg(feature = "hash")]
+prog_harness!(fd_hash_prog_all_collect, SK_RAW4_RAW3_RAW0_CK, usize::MAX, [Op::All, Collect]);
+#[cfg(feature = "hash")]
+prog_harness!(fd_hash_prog_bytes_read_small, SK_RAW4_RAW3_RAW0_CK, 2, [Bytes(3), ReadN(2), Bytes(3), ReadN(1), Op::All, ReadN(3)]);
+#[cfg(feature = "hash")]
+harness! { fn fd_hash_reuse_undrained_then_second_frame() { reuse(&SK_RLE3_RAW2_CK, 1, 0, &SK_RAW4_CK); } }
+#[cfg(feature = "hash")]
+harness! { fn fd_hash_reuse_drained_then_second_frame() { reuse(&SK_RLE3_RAW2_CK, 0, 0, &SK_RLE3_RAW2); } }
+
+// C08: the accessor reports the low 32 bits of the hasher's finish value, for every hasher state (state injected)
+#[cfg(feature = "hash")]
+harness! { fn fd_hash_accessor_low32() {
+    let mut dec = FrameDecoder::new();
+    assert!(dec.get_calculated_checksum().is_none());
+    let mut sc = DecoderScratch::new(2);
+    let acc: u64 = nd::any(); let len: usize = nd::any();
+    sc.buffer.hash.acc = acc; sc.buffer.hash.len = len;
+    dec.state = Some(FrameDecoderState {
+        frame_header: crate::decoding::frame::verif_kani::mk_header(0x24, 0, 2),
+        decoder_scratch: sc, frame_finished: true, block_counter: 1, bytes_read_counter: 15, check_sum: Some(nd::any()), using_dict: None,
+    });
+    assert!(dec.get_calculated_checksum() == Some(twox_hash::reference_finish(0, len, acc) as u32), "calculated checksum is not the low 32 bits of the hash");
+    nd_cover!(true, "reached");
     core::mem::forget(dec);
 } }
